@@ -6,6 +6,9 @@ ids = [json.loads(l)['id'] for l in open(os.path.join(ROOT, 'properties.jsonl'))
 TECH = 'bounded symbolic execution of the clang-14 LLVM IR of the real sources (own path-forking executor, engine S), assertions and branch feasibility decided by z3; counterexamples replayed on the g++ build'
 NOTE = 'Trusted: clang-14 -O1 lowering, engine S (validated on every run by concrete differential runs against the native build), z3, the environment models listed in the evidence (operator new/delete never fail; libstdc++ out-of-line functions modelled). Nothing is claimed outside the bounds recorded in the evidence.'
 CLAIMED = {
+ 'C10': ('4 C10', 'Singletons and named accessors exhaustively; inverse pair decompose(union S)=S for every subset on sliding windows (quick 3x2^6 x2 backgrounds, thorough all 2^18) and all 2^3 qualifier subsets; | & ^ implies and the per-bit membership lemma with operands symbolic over all 64 bits (single z3 queries); unknown names refused for a symbolic non-basic word.'),
+ 'C11': ('4 C11', 'Empty set refused for a fully symbolic 64-bit qualifier set; three nested qualification requests with symbolic non-empty sets over picked base types: main variant never qualified, result is the node of the union, independent of order/grouping.'),
+ 'C13': ('4 C13', 'All 26+5+2 constants exhaustively (spelling, self-description, 325 distinct pairs, two Lexicons) and the spelling->node routes for one fully symbolic word of up to 18 bytes (every reserved word and every near miss is inside the symbolic space).'),
  'C15': ('4 C15', 'Every derived interface operation listed by the property is compared with its defining primitives on the same node, for all sizes 0..3 of every Sequence implementation, 0..2 handlers, set/unset defaults, and symbolic spellings for the equality operators; z3 decides every assertion on every path.'),
  'C16': ('4 C16', 'Elementary substitutions over all (parameter, value, query) picks and general substitutions over all binding histories of length K (quick 4, thorough 6) incl. rebinding, compared with a last-binding shadow map after every step.'),
  'C08': ('4 C08', 'Every insertion history up to N keys (all weak orderings, duplicates included) for both tree flavours and three comparators, plus one inductive step from every valid tree on a height-H skeleton: all red-black, BST, parent-link, height, find/insert identities hold on every path; z3 decides every branch and assertion. quick N=5,H=3; thorough N=7/6,H=4.'),
